@@ -40,7 +40,7 @@ CHECKS = {
               "Generated multi-goroutine programs over all public entry points run several times under different GOMAXPROCS with random yields at fs call sites in a -race build; any race report or crash is a violation; for the class of calls that are atomic observable pieces the recorded history (closed by a sequential sweep) must be linearizable w.r.t. the model (porcupine). Schedules are sampled.",
               "DESIGN.md §4 C08", "exploration",
               TRUST + " Trusted additionally: Go's race detector and porcupine v1.3.0. Interleavings are sampled; the race detector is order-insensitive for accesses that occur in the run."),
-    "C09": ex("generated concurrent programs on a lock-instrumented copy: single-threaded lock-discipline monitor (confirmed by writer injection) + progress watchdog; workers also start on crash states and Bulk producers call the handle",
+    "C09": ex("generated concurrent programs on a lock-instrumented copy: single-threaded lock-discipline monitor (confirmed by writer injection) + progress watchdog; workers also start on crash states and Bulk producers call the handle; storage that fails on every mutation from a generated point on (every call and Close must return)",
               "Every generated program (all entry points, all configurations, flusher running) is executed single-threaded under a lock monitor that flags re-entrant read acquisitions, self deadlocks and lock-order cycles deterministically, then concurrently with perturbation under a watchdog that declares a hang only when all workers sit in lock acquisitions on two samples.",
               "DESIGN.md §4 C09", "exploration",
               TRUST + " 'For every call path' is approximated dynamically: a nested acquisition on a path no generated program executes is missed (evidence lists the entry points executed)."),
@@ -74,7 +74,7 @@ CHECKS = {
               "No sod code is used to judge the layout; 40 directories produced by the pinned release under 26 configurations must open with identical contents, search behaviour and constraints, and stay loadable after generated further writes.",
               "DESIGN.md §4 C18", "exploration",
               TRUST + " Trusted additionally: the golden corpus under /verif/golden (verified against the model by the walker when it was recorded)."),
-    "C19": ex("structure-aware mutation of schema.json/object files + stray directory entries + hostile search argument triples, battery of API calls under recover() and a watchdog, scans must fail or cover the collection; native go fuzzing in the thorough tier",
+    "C19": ex("structure-aware mutation of schema.json/object files + stray directory entries + hostile search argument triples, battery of API calls under recover() and a watchdog, scans must fail or cover the collection; schema.json replaced by special files (FIFO, directory, links); native go fuzzing in the thorough tier",
               "Any panic or hang is a violation; unevaluable searches must return no objects; with only stray entries added everything must still equal the model.",
               "DESIGN.md §4 C19"),
     "C20": ex("model-based PBT: search evaluated, generated writes placed relative to the result range, then consumed or refined (sibling/late And/Or derivations); snapshot-set oracle",
